@@ -167,6 +167,8 @@ class Evaluator:
             return list(self.call_function(mem, [], {}, bound_self=v))
         if isinstance(v, Opaque):
             raise AnalysisError(f'iteration over an unmodelled value {v}')
+        if hasattr(v, '__next__'):
+            return v  # an iterator is consumed as far as the loop goes, as at run time
         return list(v)
 
     def call_function(self, fndef, args, kwargs, bound_self=None):
@@ -236,13 +238,16 @@ class Evaluator:
                     env[ka.arg] = self.expr(d, {})
         self.trace = []
         self.steps = 0
+        is_gen = not isinstance(self.fn, ast.Lambda) and any(isinstance(x, (ast.Yield, ast.YieldFrom)) for x in _walk_own(self.fn))
+        if is_gen:
+            self.yields = []  # a generator is evaluated eagerly: the result is the list of its values
         try:
             self.block(self.fn.body, env)
         except _Return as r:
-            return r.value
+            return self.yields if is_gen else r.value
         except _Raise as e:
             return Raised(e.kind)
-        return None
+        return self.yields if is_gen else None
 
     def block(self, stmts, env):
         for st in stmts:
@@ -364,6 +369,10 @@ class Evaluator:
             else:
                 self.block(st.orelse, env)
             self.block(st.finalbody, env)
+            return
+        if isinstance(st, ast.Assert):
+            if not self.truth(self.expr(st.test, env)):
+                raise _Raise('AssertionError')
             return
         raise AnalysisError(f'unsupported statement in decision procedure: {type(st).__name__}: {text(st)[:60]}')
 
@@ -743,6 +752,8 @@ def _walk_own(fndef):
     while todo:
         n = todo.pop()
         yield n
+        if isinstance(n, (ast.FunctionDef, ast.Lambda, ast.ClassDef)):
+            continue
         for c in ast.iter_child_nodes(n):
             if not isinstance(c, (ast.FunctionDef, ast.Lambda, ast.ClassDef)):
                 todo.append(c)
